@@ -112,7 +112,7 @@ func init() {
 		Harness:    []harnessCopy{{"c39", "x/jsonrpc2"}},
 		TestPkg:    "x/jsonrpc2", TestName: "TestZSimC39",
 		QuickRuns: 16000, ThoroughRuns: 6000000, QuickBudget: 4 * time.Minute, ThoroughBudget: 60 * time.Minute,
-		MaxStepsQuick: 8000, MaxStepsThor: 30000, Chunk: 375,
+		MaxStepsQuick: 40000, MaxStepsThor: 60000, Chunk: 375,
 		Rule: "each run draws a transport (synchronous pipe like net.Pipe, or 64/4096-byte buffers), a fault plan (none in ~35% of runs; otherwise short reads, chunked writes, a disconnect in the middle of a write or first noticed by a read, a cut at a byte offset, a half-close, a stall healed in the settle phase), in ~20% of runs a scripted raw peer instead of the second connection (duplicate responses, responses with unknown or wrong-kind ids, error responses, no response, garbage frames, duplicate request ids, unsolicited responses), in ~25% of the other runs a second client dialling the same server, in ~20% the server behind NewIdleListener (timeout 1 ms / 50 ms / 60 s of simulated time, early-expiry rate 0-15% per step, 0-2 further clients that dial once the first has closed), in ~8% (30% behind the idle listener) one Accept that fails with an ordinary error, 1-4 caller tasks spread over the two endpoints issuing calls (echo, peek answered on the read loop, slow, async with a later Respond, re-entrant, failing, unknown), notifications, cancel notifications, cancelled Await contexts, second awaiters, Close and Wait, and a scheduling strategy. After the first quiescence faults stop, blocked handlers are released and both ends are closed. Non-trivial = at least one completed Await and 10 context switches; distinct = distinct (event-log hash, workload hash) pairs",
 		Real: []string{"x/jsonrpc2 conn.go, serve.go (Dial, NewServer/run/Shutdown/Wait, newConnection, NewIdleListener/idleListener), frame.go (HeaderFramer), messages.go, wire.go, jsonrpc2.go compiled from the working tree", "real channels/select (polling order decided by the simulator), context, encoding/json, bufio"},
 		Stubbed: []string{"sync.Mutex/WaitGroup/Once and sync/atomic (simulated / yield-wrapped)", "the byte transport (simnet pipe) and the listener", "application handlers, preempter and binder (harness)", "package time (stime: simulated clock; the idle listener's timer fires when nothing else can run or when the seeded scheduler lets the deadline pass first) and runtime.SetFinalizer (no-op inside a simulation)", "stdio and langserver are not exercised"},
